@@ -535,6 +535,18 @@ def _crash_excerpt(out):
     return None
 
 
+def _panic_in_code_under_test(exc):
+    """True if the first source line of the crash excerpt (the frame that panicked) lies in the repository, not in a harness file."""
+    for l in exc.splitlines():
+        m = re.match(r"^\s+(/\S+\.go):\d+", l)
+        if m:
+            f = m.group(1)
+            if "/runtime/" in f or f.startswith("/usr/lib/go") or "/opt/veriftools/go" in f:
+                continue
+            return f.startswith(REPO + "/") and "zz_verif_" not in f
+    return False
+
+
 def run_harness(chk, label, pkg, files, run, env=None, timeout=900, race=False, crash_key=None, max_rounds=6):
     """go_test + digestion. If the test binary dies from a panic / runtime fatal error in the code under test
     (other goroutine, cannot be recovered in-process), the in-flight cases (begin without end) are re-run one by
@@ -575,16 +587,39 @@ def run_harness(chk, label, pkg, files, run, env=None, timeout=900, race=False, 
                 skip.append(idx)
                 found = True
         if not found:
+            # a crash that needs an interleaving: the in-flight cases alone did not reproduce it. If the panic is raised by the code
+            # under test (first source frame of the panicking goroutine outside the harness) and the whole input crashes the same
+            # way a second time, it is a defect of the code, reproducible by running the check again
+            if _panic_in_code_under_test(exc):
+                rc3, out3, recs3 = go_test(pkg, files, run, env=env, timeout=timeout, race=race, name=label + "-again")
+                exc3 = _crash_excerpt(out3)
+                if not any(r.get("k") == "done" for r in recs3) and exc3 and _panic_in_code_under_test(exc3) and \
+                        exc3.splitlines()[0] == exc.splitlines()[0]:
+                    chk.violation(crash_key + "/unattributed", "process crashed twice on this input, no single case reproduces it alone: " + exc.splitlines()[0],
+                                  {"harness": label, "in_flight_cases": cand[:40], "input": env.get("VERIF_IN"), "crash": exc, "second_crash": exc3})
+                    chk.cov["impl_runs"].append({"harness": label, "stopped_after_crashes": 2})
+                    raise CrashFound(chk)
             raise InfraError("harness %s crashed but no single case reproduces it\n%s" % (label, exc))
     # every round found another crashing case: the class of defect is established, the remaining inputs were not all examined
     chk.notes.append("harness %s: stopped after %d process crashes, remaining inputs not examined" % (label, len(skip)))
     chk.cov["impl_runs"].append({"harness": label, "stopped_after_crashes": len(skip)})
+    if chk.violations:
+        raise CrashFound(chk)
     return {"stopped_after_crashes": len(skip)}
+
+
+class CrashFound(Exception):
+    """The code under test crashed the harness process (confirmed); the rest of the input was not examined: finish with what was found."""
+    def __init__(self, chk):
+        self.chk = chk
 
 
 def main_wrapper(fn, pid, tier):
     try:
         rc = fn(tier)
+    except CrashFound as e:
+        e.chk.cov["exhaustive"] = False
+        rc = e.chk.finish()
     except InfraError as e:
         print("ERROR property=%s (no verdict): %s" % (pid, e))
         rc = 2
